@@ -100,7 +100,8 @@ CLAIMS = {
              "still-running step fits the table (both conditions have kernel-checked counterexamples; the second is "
              "the known finding F7, replayed on the real code); after every director history a job that starts a "
              "command belongs to a step all of whose recursive creators are RUNNING/SUCCEEDED and hold nothing (a "
-             "hash CHECK may bypass a hold; it starts no command). For the job limit: a model of Builder.job_loop with the "
+             "hash CHECK may bypass a hold; it starts no command); a kernel-checked counterexample (one_command_per_step_negation) shows that a "
+             "RUNNING step re-created by its creator gets a second job while the first runs (known finding, replayed on the real CLI). For the job limit: a model of Builder.job_loop with the "
              "HashQueue (every sequence of scheduler answers, hash submissions/promotions, task endings and exceptions): "
              "running_tasks never exceeds njob, promoted work outside the budget is hashing only, every started job is "
              "accounted for and its completion reported once; the two `<` guards and the absence of other start sites are "
@@ -143,7 +144,9 @@ CLAIMS = {
              "statements are false of the code and kept as _partial + _negation with witnesses replayed on the real "
              "code every run (half-closed peer gets no reply, foreign reply id fails the client, unpicklable result "
              "cancels sibling handlers). The oracle also drives the real connection on a virtual clock with peers "
-             "that vanish or say goodbye while handlers are in flight.",
+             "that vanish or say goodbye while handlers are in flight, with 33-150 calls completing behind a paused writer, and "
+             "the real async client with several concurrent callers (payloads beyond the transport buffer, a caller cancelled "
+             "inside drain(): fix 5007b3c).",
         note=BASE_NOTE + "asyncio task scheduling is modelled as nondeterministic events; kernel socket behaviour is "
              "exercised only in the thorough tier (socketpair).",
         technique="Lean 4 proof (decoder induction, connection invariants) + event-script correspondence on the real "
@@ -155,7 +158,9 @@ CLAIMS = {
              "names bind equal substrings; the recorded set equals the globbed existing paths accepted by the regex "
              "(full since the two fixes); regenerated obligations that all compile sites pass DOTALL; the language "
              "equalities (regex = glob, anonymous = named) have _partial results and concrete _negation theorems for "
-             "four known classes. Correspondence on emitted regex/glob strings, matcher, NamedGlob.glob on real trees.",
+             "four known classes. Correspondence on emitted regex/glob strings, matcher, NamedGlob.glob on real trees; trees with symbolic links "
+             "(to files, to directories, dangling), which the model leaves out, are decided on the implementation alone "
+             "(scan = glob and accepted, incremental = fresh scan for complete change lists).",
         note=BASE_NOTE + "Python re and glob are modelled for the fragment the compilers emit. Known findings: four "
              "classes where the regex accepts an existing path that glob never returns.",
         technique="Lean 4 proof over a regex AST / glob model + differential correspondence on real directory trees",
@@ -197,7 +202,8 @@ CLAIMS = {
              "and stepup.core.path on generated paths, working directories and HERE/STEPUP_ROOT values; every API function is "
              "called for real with a captured RPC client and what it hands to the director (and back to the step) is compared with "
              "the model and decided on a real directory tree; patterns and matches of glob()/static() are recorded without a "
-             "leading ./ (glob_path_trailing_only, since fix f2df9c9); ROOT/HERE of the real Executor._run_command.",
+             "leading ./ (glob_path_trailing_only, since fix f2df9c9); the return value of static() and the arguments file of call() "
+             "(fix a9f03d7); ROOT/HERE of the real Executor._run_command.",
         note=BASE_NOTE + "Lexical resolution on a symlink-free tree is the stated semantics; posixpath/path.Path are "
              "modelled and validated by correspondence. make_path_out, short_path and NUL characters are not modelled.",
         technique="Lean 4 proof on component lists + differential correspondence + realpath oracle on a real tree",
@@ -224,7 +230,9 @@ CLAIMS = {
         text="Lean theorems: the LIKE/ESCAPE clause of prefix_clause, the dir_range_upper half-open range and the "
              "substr test are byte-exact prefix tests for all strings; one theorem per call site composes them; the "
              "case-sensitivity flag is regenerated from a live connection. Correspondence runs every call site of the "
-             "implementation on adversarial label sets against the model.",
+             "implementation on adversarial label sets against the model; the range bounds of every target directory are among the "
+             "outputs; the project root as a directory target ('./') is stated separately by the oracle (three known findings: "
+             "the directory-target sites select nothing for it).",
         note=BASE_NOTE + "Modelled, not verified: SQLite LIKE/BINARY collation/substr, Path(p)/'' and str.startswith "
              "(validated against SQLite/Python on generated inputs). File labels never end in '/'.",
         technique="Lean 4 proof over a hand-written model + regenerated table + differential correspondence",
@@ -241,7 +249,10 @@ CLAIMS = {
              "pend_blocker holds exactly one row per pending step; the UNION ALL attribution walk terminates for any "
              "blocker table with its primary key (negation witness without it); every pending step is attributed to "
              "exactly one root or is cyclic, and FILE + RESOURCE + failed + deferred + other + runnable + cyclic = total. The printed report of the real reporter is parsed "
-             "and compared with the attribution (known finding summary-counts-overlap: the printed rows are exact transitive counts).",
+             "and compared with the attribution (known finding summary-counts-overlap: the printed rows are exact transitive counts); more root causes than the report "
+             "ranks; whether a requested target is invalid is decided on the final database (known finding "
+             "invalid-target-not-failed:declaring-plan-skipped), the boot script as a target (fix f9126e4); a simulated director "
+             "that raises is a finding.",
         note=BASE_NOTE + "Base relations of the pending analysis (pend_file_block, dead-end files, unsatisfiable resources) "
              "and whether the cause shown is true of the graph are compared against a from-scratch Python reference on "
              "generated leftover graphs; serve()'s exit status is checked on simulated builds. 'DRAINED without FAILED' "
